@@ -84,6 +84,9 @@ def bracket_rules(chk, P, prefix):
 
 
 
+OVERLAYS = ('K2b',)
+
+
 def run(chk):
     P = mir.Program("K1")
     chk.use_program(P)
@@ -303,6 +306,8 @@ def run(chk):
                     if self_fields(b, c.args[0]) != ["id"]:
                         return False, "%s calls %s with key %s, not self.id" % (b.key, c.callee["path"], o_str(b.origin(c.args[0]))), [], c.loc
                     sites.append(c.loc)
+        if not sites:
+            raise mir.AnchorMissing("callers of thread_local_ctxt::current/swap")
         if len(sites) < 4:
             return False, "expected at least 4 callers of current/swap, found %d" % len(sites), [], None
         return True, "", sites
